@@ -45,12 +45,14 @@ def reentrant_case(col, pid, rng, cidx, jobref):
     DAG inside the function."""
     from tawazi import Resource, dag, xn
 
-    sp = sched.gen_shape(rng, nmin=2, nmax=6, mc_max=3, const_objects=0.0)
-    sp["is_async"] = rng.random() < 0.3
-    d, _e, plain = S.build_tawazi(sp)
     how = rng.choice(["call_in_body", "call_in_body", "dag_object_as_node_function", "built_in_body"])
-    if how == "dag_object_as_node_function" and sp["is_async"]:
-        how = "call_in_body"
+    # (DAG objects used as node functions may have setup nodes: the node owns a private copy of the DAG, the user's object stays as built)
+    sp = sched.gen_shape(rng, nmin=2, nmax=6, mc_max=3, const_objects=0.0, setup_rate=0.35 if how == "dag_object_as_node_function" else 0.0)
+    sp["is_async"] = rng.random() < 0.3 and how != "dag_object_as_node_function"
+    # (plain probes also for setup functions: their values are the reference's terms, without invocation numbers)
+    plain = {name: probes.mkprobe(name, shape=tuple(fs["shape"]) if fs.get("shape") else None) for name, fs in sp["fns"].items()}
+    d, _e, plain = S.build_tawazi(sp, plain=plain)
+    setup_ids = [i for i, nd in zip(S.node_ids(sp), sp["nodes"]) if sp["fns"][nd["fn"]].get("setup")]
     lock = threading.Lock()
     calls = {}
     cnt = itertools.count()
@@ -159,6 +161,14 @@ def reentrant_case(col, pid, rng, cidx, jobref):
     refy = S.run_reference(sp, [y], plain)
     B.reset_log()
     ry = probes.run_op("inner_call_afterwards", lambda: _invoke(d, sp, [y]))
+    if how == "dag_object_as_node_function" and setup_ids and ry[0] == "ok":
+        # the user's object was never called before: its first own call runs its setup nodes (nothing leaked in from the copies
+        # that the outer DAG's nodes own)
+        ent_y = {e["node"] for e in B.snapshot() if e["kind"] == "FENTER"}
+        col.counters["env_dag_object_nodes_with_setup_inside"] += 1
+        if not set(setup_ids) <= ent_y:
+            col.violation(pid, "dag_object_used_as_node_function_got_state_from_the_outer_executions", dict(
+                setup_nodes=setup_ids, entered_by_its_first_own_call=sorted(ent_y), inner_source=S.render(sp)), rp)
     if refy[0] == "ok" and (ry[0] != "ok" or not same(refy[1].result, ry[1])):
         col.violation(pid, "dag_state_changed_by_calls_from_node_bodies", dict(how=how, expected=short(refy[1].result, 300), got=short(ry, 300),
                                                                               inner_source=S.render(sp)), rp)
@@ -254,6 +264,7 @@ def loops_case(col, pid, rng, cidx, jobref):
             t = asyncio.ensure_future(d(*a4))
             await asyncio.sleep(delay)
             t.cancel()
+            cancelled["marker"] = B.ev("CANCEL_SENT")
             try:
                 await t
                 cancelled["finished"] = True
@@ -280,7 +291,21 @@ def loops_case(col, pid, rng, cidx, jobref):
         elif not same(ref[1].result, r[1]):
             col.violation(pid, "%s_returned_wrong_value" % label, dict(expected=short(ref[1].result, 300), got=short(r[1], 300), source=S.render(sp)), rp)
     col.generic(log, rp)
-    col.hashes.add(S.spec_hash({"s": S.render(sp), "loops": 1}))
+    mk = cancelled.get("marker")
+    if cancelled.get("cancelled") and mk is not None:
+        # after the cancellation reached the awaiting task nothing NEW of that execution is dispatched (what is in flight finishes)
+        toks = [e["token"] for e in log if e["kind"] == "POOL_NEW"]
+        if len(toks) >= 2:
+            ctok = toks[-2]  # the cancelled execution's pool; the last one belongs to the await that followed
+            # (the hand-over of an async-thread node happens in its task's first step: a SUBMIT made by a task that existed before
+            # the cancellation is not a new dispatch)
+            late = [e for e in log if e.get("token") == ctok and e["seq"] > mk + 1
+                    and (e["kind"] == "TASK_NEW" or (e["kind"] == "SUBMIT" and e.get("task") is None))]
+            late_inline = [e for e in log if e.get("token") == ctok and e["kind"] == "XENTER" and e.get("inline") and e["seq"] > mk + 1]
+            col.counters["env_cancelled_executions_checked"] += 1
+            if late or late_inline:
+                col.violation(pid, "cancelled_await_kept_dispatching_nodes", dict(
+                    dispatched_after_the_cancel=[(e["kind"], e.get("node")) for e in (late + late_inline)][:6], source=S.render(sp)), rp)
 
 
 def copies_case(col, pid, rng, cidx, jobref):
